@@ -188,6 +188,11 @@ static int number_from_pyobject(PyObject *o, number *a, int id)
                 !PyFloat_Check(o)) return -1;
 #endif
             (*a).d = PyFloat_AsDouble(o);
+            if ((*a).d == -1.0 && PyErr_Occurred()) {
+                /* e.g. a Python integer that does not fit a double */
+                PyErr_Clear();
+                return -1;
+            }
             return 0;
 
         case COMPLEX:
@@ -204,6 +209,10 @@ static int number_from_pyobject(PyObject *o, number *a, int id)
 #else
             (*a).z = _Cbuild(PyComplex_RealAsDouble(o),PyComplex_ImagAsDouble(o));
 #endif
+            if (PyErr_Occurred()) {
+                PyErr_Clear();
+                return -1;
+            }
             return 0;
     }
     return -1;
